@@ -148,7 +148,7 @@ pub fn make_variant(r: &mut Rng, base: &Prog, a: &Analysis, k: usize) -> Option<
             prog.stmt_order = Some(o);
             desc.push("statements shuffled".into());
         }
-        if analyze(&prog).is_ok() && prog != *base {
+        if analyze(&prog).is_ok() && prog != *base && !crate::analysis::short_circuit_hazard(&prog) {
             return Some(Variant { prog, origin, desc });
         }
     }
@@ -263,4 +263,17 @@ fn consumers(g: &G, n: usize) -> Vec<(usize, usize)> {
         }
     }
     v
+}
+
+/// Insert `tee()` with a `null()` branch in front of input 0 of node `idx` (forces the operator
+/// onto the push side of its subgraph). Used by the per-operator cell programs of C21.
+pub fn force_push(base: &Prog, idx: usize) -> Option<Prog> {
+    let mut g = G::from_prog(base);
+    let src = *g.nodes[idx].ins.first()?;
+    let t = g.add(Op::Tee { n: 2 }, vec![src], None);
+    g.nodes[idx].ins[0] = (t, 0);
+    g.add(Op::Null, vec![(t, 1)], None);
+    let (prog, _, _) = g.linearise()?;
+    analyze(&prog).ok()?;
+    Some(prog)
 }
